@@ -4,7 +4,7 @@ from contracts import c_rename, c_preserve_guards
 
 
 def units():
-    return [c_preserve_guards.align_names]
+    return [u for u in c_preserve_guards.UNITS if "C19" in u.props]
 
 
 def extra(tier, seed):
